@@ -112,17 +112,27 @@ Definition req_wf (r : request) : Prop :=
 
 Definition blen (b : bytes) : N := N.of_nat (List.length b).
 
+(* Big-endian encoders with shifts and masks instead of division (same function as
+   Bytes.be_enc / Bytes.enc_signed -- Request_proofs.be_eq / sbe_eq -- but cheap on the extracted
+   binary numbers; the driver runs them hundreds of millions of times). *)
+Fixpoint be (k : nat) (v : N) : bytes :=
+  match k with
+  | O => []
+  | S k' => be k' (N.shiftr v 8) ++ [N.land v 255]
+  end.
+Definition sbe (k : nat) (z : Z) : bytes := be k (wrap_bits (8 * N.of_nat k) z).
+
 (* ---- frame/types.rs ---------------------------------------------------------------------- *)
 
 (* write_short_length: `let v: u16 = v.try_into()?; write_short(v, buf)` *)
 Definition write_short_length (v : N) : option bytes :=
-  if v <? 65536 then Some (be_enc 2 v) else None.
+  if v <? 65536 then Some (be 2 v) else None.
 (* write_int_length: `let v: i32 = v.try_into()?; write_int(v, buf)` *)
 Definition write_int_length (v : N) : option bytes :=
-  if v <? 2147483648 then Some (be_enc 4 v) else None.
-Definition write_short (v : N) : bytes := be_enc 2 v.
-Definition write_int (z : Z) : bytes := enc_signed 4 z.
-Definition write_long (z : Z) : bytes := enc_signed 8 z.
+  if v <? 2147483648 then Some (be 4 v) else None.
+Definition write_short (v : N) : bytes := be 2 v.
+Definition write_int (z : Z) : bytes := sbe 4 z.
+Definition write_long (z : Z) : bytes := sbe 8 z.
 
 Definition write_bytes (v : bytes) : option bytes :=
   match write_int_length (blen v) with Some l => Some (l ++ v) | None => None end.
@@ -177,9 +187,9 @@ Definition write_string_map (l : list (bytes * bytes)) : option bytes :=
 (* CellWriter::set_null / set_unset / set_value (CellOverflowError = None) *)
 Definition ser_cell (c : cell) : option bytes :=
   match c with
-  | CNull => Some (enc_signed 4 (-1))
-  | CUnset => Some (enc_signed 4 (-2))
-  | CVal b => if blen b <? 2147483648 then Some (be_enc 4 (blen b) ++ b) else None
+  | CNull => Some [255; 255; 255; 255]          (* (-1i32).to_be_bytes() *)
+  | CUnset => Some [255; 255; 255; 254]         (* (-2i32).to_be_bytes() *)
+  | CVal b => if blen b <? 2147483648 then Some (be 4 (blen b) ++ b) else None
   end.
 Fixpoint ser_cells (l : list cell) : option bytes :=
   match l with
@@ -236,7 +246,7 @@ Definition ser_qparams (p : qparams) (sv : N * bytes) : option bytes :=
                         (is_some (qp_paging p)) (is_some (qp_serial p)) (is_some (qp_timestamp p)) in
   let buf := write_short (cons_code (qp_consistency p)) ++ [flags] in
   (* SerializedValues::write_to_request *)
-  let buf := if nonempty then buf ++ be_enc 2 cnt ++ blob else buf in
+  let buf := if nonempty then buf ++ be 2 cnt ++ blob else buf in
   let buf := match qp_page_size p with Some z => buf ++ write_int z | None => buf end in
   match (match qp_paging p with
          | Some ps => match write_bytes ps with Some b => Some (buf ++ b) | None => None end
@@ -283,7 +293,7 @@ Fixpoint batch_loop (idx nser nstmts : N) (stmts : list stmt) (vals : list (list
               | Some cb =>
                   let cnt := N.of_nat (List.length v) in       (* row_writer.value_count() *)
                   if cnt <? 65536 then
-                    let chunk := patch2 (List.length sb) (be_enc 2 cnt) (sb ++ [0; 0] ++ cb) in
+                    let chunk := patch2 (List.length sb) (be 2 cnt) (sb ++ [0; 0] ++ cb) in
                     match batch_loop (idx + 1) (nser + 1) nstmts ss vs with
                     | Err e => Err e
                     | Ok (rest, unused, n) => Ok (chunk ++ rest, unused, n)
@@ -378,7 +388,7 @@ Definition codec_ok (cd : codec) : Prop :=
 (* compress_append: `uncomp_body.len() as u32` wraps modulo 2^32 *)
 Definition compress_append (cd : codec) (alg : comp_alg) (body : bytes) : result ser_err bytes :=
   match alg with
-  | Lz4 => Ok (be_enc 4 (blen body mod 4294967296) ++ lz4_compress cd body)
+  | Lz4 => Ok (be 4 (blen body mod 4294967296) ++ lz4_compress cd body)
   | Snappy => match snap_compress cd body with Some c => Ok c | None => Err ErrSnap end
   end.
 
@@ -396,7 +406,7 @@ Definition decompress (cd : codec) (alg : comp_alg) (b : bytes) : option bytes :
    data[0]=4, data[1]=flags, data[2..4]=0 (stream, set later), data[4]=opcode,
    data[5..9] = ((data.len() - HEADER_SIZE) as u32).to_be_bytes()   -- wraps modulo 2^32 *)
 Definition make_frame (flags op : N) (payload : bytes) : bytes :=
-  [4; flags; 0; 0; op] ++ be_enc 4 (blen payload mod 4294967296) ++ payload.
+  [4; flags; 0; 0; op] ++ be 4 (blen payload mod 4294967296) ++ payload.
 
 Definition frame_flags (compressed tracing : bool) : N :=
   let flags := 0 in
@@ -422,7 +432,7 @@ Definition encode_request (cd : codec) (c : option comp_alg) (tracing : bool) (r
 
 (* SerializedRequest::set_stream: data[2..4] = stream.to_be_bytes()  (i16) *)
 Definition set_stream (s : Z) (f : bytes) : bytes :=
-  firstn 2 f ++ enc_signed 2 s ++ skipn 4 f.
+  firstn 2 f ++ sbe 2 s ++ skipn 4 f.
 
 (* ========================================================================================== *)
 (* PART 2 — the specification: a parser written from the protocol document                    *)
